@@ -129,3 +129,42 @@ def ob_chrom_tree_count(ctx, res):
                  "(65537 chromosomes: the file lists 1 chromosome and every query on the others fails); needs a multi-level tree or a refusal" % (up(arg), ot))
     else:
         res.ok(ct, "chromosome tree leaf counts are bounded by 65535")
+
+
+def ob_chrom_tree_key_order(ctx, res):
+    """C09-N3: a B+ tree leaf must list its keys in key order; write_chrom_tree lists them in id (first-appearance) order"""
+    from ..astq import calls
+    ct = ctx.ast.fn(W, "write_chrom_tree")
+    sorts = list(calls(ct.body, method=("sort_by_key", "sort_by", "sort", "sort_unstable_by_key", "sort_unstable_by", "sort_unstable")))
+    if len(sorts) != 1:
+        res.fail("chromTree/key-order-shape", ct, "expected one sort of the chromosome list")
+        return
+    t = up(sorts[0])
+    by_key = re.search(r"sort(_unstable)?_by_key\(\|(\w+)\| \*?\2\.0", t) or re.search(r"\|(\w+),(\w+)\| \*?\1\.0(\.as_bytes\(\))?\.cmp\(&?\*?\2\.0", t) or re.fullmatch(r"\w+\.sort(_unstable)?\(\)", t)
+    # a multi-level tree (loop over nodes writing u16 counts) needs key order as well; a reader returning chromosomes by id would reconcile it with C01
+    if not by_key:
+        res.fail("chromTree/key-order", sorts[0],
+                 "the chromosome tree's leaf lists its keys in id (first-appearance) order: with chromosomes not in name order (accepted under --sorted start: `chr2 ..` then `chr1 ..`) "
+                 "the keys are unsorted, which an independent B+ tree decoder (or a reader that bisects) rejects; C01's first-appearance order of chroms() "
+                 "relies on exactly this order because the reader returns the leaf order")
+    else:
+        res.ok(sorts[0], "chromosome tree leaf written in key order")
+
+
+def ob_depth_precision(ctx, res):
+    """C06-P1: the running coverage depth of the bigBed sweeps is held in the f32 `value` of a `Value`"""
+    BW = "bigtools/src/bbi/bigbedwrite.rs"
+    st = ctx.ast.struct("bigtools/src/bbi.rs", "Value")
+    vt = [f["ty"] for f in st["fields"] if f["name"] == "value"]
+    pv = ctx.ast.fn(BW, "process_val")
+    incs = [n for n in walk_no_nested_fn(pv.body) if n.k == "binary" and n["op"] == "+=" and up(strip(n["l"])).endswith(".value") and up(strip(n["r"])) == "1.0"]
+    ov = [nm for nm, ty in pv.params if "IndexList<Value>" in ty.replace(" ", "")]
+    if not vt or not incs or not ov:
+        res.fail("depth/shape", pv, "depth list / increment not recognised")
+        return
+    if vt[0] == "f32":
+        res.fail("depth/f32", incs[0],
+                 "the coverage depth is counted in an f32 (`Value::value += 1.0`): above 2^24 = 16,777,216 entries over one base the count stops growing "
+                 "(16,777,218 identical entries: min, max and sum come back as 16,777,216)")
+    else:
+        res.ok(incs[0], "coverage depth counted in %s" % vt[0])
